@@ -68,7 +68,7 @@ def main(tier: str) -> int:
     res = Result(PROP, tier, s, rule=RULE)
     res.assumptions = ['oracle: the original program\'s own result on the same deep-copied arguments; inputs on which the original raises are skipped',
                        'structural comparison: sign of zero, NaN, infinities, bool vs number, list vs tuple, lengths']
-    run_shards('vf.checks.c07', 16, tier, s, timeout=1200 if tier == 'quick' else 3400, res=res)
+    run_shards('vf.checks.c07', 16 if tier == 'quick' else 64, tier, s, timeout=1200 if tier == 'quick' else 3400, res=res)
     v, c = res.counters.get('variants', 0), res.counters.get('variants_changed', 0)
     res.extra['changed_fraction'] = round(c / v, 3) if v else 0
     if v and c < 0.3 * v and not res.violations:
